@@ -321,6 +321,27 @@ void explore_poly_carry(Ctx &ctx) {
                         exec_case(ctx, c, run, mix64(case_key(c), mix64(fill, ri)), true);
                     }
                 }
+    // keys whose powers are structured: the vectorised back end precomputes r^2 and r^4; one limb of that power (44- and 26-bit limbs)
+    // tiny or saturated, next limb odd / even.  The keys were solved for offline (tools/poly1305_hard_keys.c: modular square roots
+    // filtered for valid clamped keys); here every message length that reaches the r^2 / r^4 code is run with them.
+    struct HardKey { int e, radix, limb, sat, odd; const char *r, *power; };
+    static const HardKey HK[] = {
+#include "poly1305_hard_keys.inc"
+        { 0, 0, 0, 0, 0, nullptr, nullptr } };
+    for (size_t hi = 0; HK[hi].r != nullptr; hi++)
+        for (size_t len : { (size_t) 16, (size_t) 17, (size_t) 31, (size_t) 32, (size_t) 33, (size_t) 48, (size_t) 63, (size_t) 64, (size_t) 65, (size_t) 96, (size_t) 127, (size_t) 128, (size_t) 129, (size_t) 160, (size_t) 255, (size_t) 256, (size_t) 257, (size_t) 300, (size_t) 512, (size_t) 1000 }) {
+            Bytes srand = r.bytes(16); uint64_t ms = r.next();
+            if (!ctx.mine(idx++)) continue;
+            Case c; c.alg = POLY1305; c.mseed = ms; c.mcls = 0; c.mlen = len; c.key = unhex(HK[hi].r); c.key.insert(c.key.end(), srand.begin(), srand.end()); c.outlen = 0;
+            for (size_t mi = 0; mi < masks.size(); mi++) {
+                c.mask = masks[mi];
+                c.streaming = false; c.chunks.clear();
+                exec_case(ctx, c, run, mix64(case_key(c), mix64(hi, 0x4a)), true);
+                c.streaming = true; c.chunks = { len / 3, 0, len / 2 - len / 3, len - len / 2 };
+                exec_case(ctx, c, run, mix64(case_key(c), mix64(hi, 0x4b)), true);
+            }
+            ctx.cls(std::string("poly1305_hard_key_r^") + std::to_string(HK[hi].e) + "_radix" + std::to_string(HK[hi].radix));
+        }
 }
 
 // ------------------------------------------------------------------ verify functions accept exactly the correct tag
